@@ -137,22 +137,23 @@ Qed.
 Lemma ser_varbytes_nil : ser_varbytes [] = [x00].
 Proof. reflexivity. Qed.
 
-Lemma legacy_ins_ok i ht l : forall j,
+Lemma legacy_ins_ok bypos i ht l : forall j,
   ht_single ht = false -> ht_none ht = false ->
   Forall wf_sin l ->
-  (forall k y, nth_error l k = Some y -> si_index y = Z.of_nat (j + k)) ->
+  (bypos = false -> forall k y, nth_error l k = Some y -> si_index y = Z.of_nat (j + k)) ->
   (forall k y, nth_error l k = Some y -> (j + k)%nat = i -> lib_legacy_script H160 y = Some (si_code H160 y)) ->
-  sh_oconcat (lib_legacy_in H160 (Z.of_nat i)) l =
+  sh_oconcat (fun o => o) (map_idx (lib_legacy_in_at H160 bypos (Z.of_nat i)) j l) =
   Some (concat (map ser_in (map_idx (legacy_in H160 i ht) j l))).
 Proof.
   induction l as [|y l IH]; intros j Hs Hn Hw Hidx Hscr; [reflexivity|].
   inversion Hw as [|? ? Hy Hl]; subst.
   cbn [sh_oconcat map_idx map concat].
   rewrite (IH (S j) Hs Hn Hl).
-  2:{ intros k z Hk. rewrite (Hidx (S k) z Hk). f_equal. lia. }
+  2:{ intros Hb k z Hk. rewrite (Hidx Hb (S k) z Hk). f_equal. lia. }
   2:{ intros k z Hk E. apply (Hscr (S k) z Hk). lia. }
-  assert (Hi : si_index y = Z.of_nat j) by (rewrite (Hidx O y eq_refl); f_equal; lia).
-  unfold lib_legacy_in, legacy_in, ser_in. cbn [ti_prev ti_vout ti_script ti_seq].
+  assert (Hi : (if bypos then Z.of_nat j else si_index y) = Z.of_nat j).
+  { destruct bypos; [reflexivity|]. rewrite (Hidx eq_refl O y eq_refl). f_equal. lia. }
+  unfold lib_legacy_in_at, legacy_in, ser_in. cbn [ti_prev ti_vout ti_script ti_seq].
   rewrite lib_outpoint_ok by exact Hy. cbn [sh_bind]. rewrite Hi.
   pose proof Hy as (Hp & Hv & Hq & Hrest).
   rewrite Hs, Hn. cbn [orb negb]. rewrite orb_true_r.
@@ -175,19 +176,19 @@ Proof.
   apply lib_ser_out_ok. exact Ho.
 Qed.
 
-Theorem legacy_preimage_ok t i ht x :
-  wf_stx t -> index_ok t -> nth_error (st_ins t) i = Some x -> si_kind x <> K_p2sh_p2wsh ->
+Theorem legacy_preimage_at_ok bypos t i ht x :
+  wf_stx t -> (bypos = false -> index_ok t) -> nth_error (st_ins t) i = Some x -> si_kind x <> K_p2sh_p2wsh ->
   legacy_all_like ht = true -> 0 <= ht < 2 ^ 32 ->
-  lib_legacy_preimage H160 t (Z.of_nat i) ht = spec_legacy_preimage H160 t i ht.
+  lib_legacy_preimage_at H160 bypos t (Z.of_nat i) ht = spec_legacy_preimage H160 t i ht.
 Proof.
   intros (Hver & Hlock & Hni & Hno & Hins & Houts) Hidx Hx Hkind Hall Hht.
   destruct (all_like_flags ht Hall) as (Ha & Hs & Hn).
-  unfold lib_legacy_preimage, spec_legacy_preimage. rewrite Hx, Hs. cbn [andb].
+  unfold lib_legacy_preimage_at, spec_legacy_preimage. rewrite Hx, Hs. cbn [andb].
   unfold legacy_ins, legacy_outs. rewrite Ha, Hn, Hs.
   rewrite sh_le4 by exact Hver. cbn [sh_bind].
   rewrite cs_enc_len by exact Hni. cbn [sh_bind].
-  rewrite (legacy_ins_ok i ht (st_ins t) O Hs Hn Hins).
-  2:{ intros k y Hk. apply Hidx. exact Hk. }
+  rewrite (legacy_ins_ok bypos i ht (st_ins t) O Hs Hn Hins).
+  2:{ intros Hb k y Hk. apply (Hidx Hb). exact Hk. }
   2:{ intros k y Hk E. cbn in E. subst k. rewrite Hx in Hk. assert (y = x) by congruence. subst y.
       apply legacy_script_ok; [apply wf_sin_keys; eapply Forall_nth_error; eassumption|exact Hkind]. }
   cbn [sh_bind].
@@ -199,24 +200,38 @@ Proof.
   rewrite map_idx_length. rewrite !app_nil_l. rewrite <- !app_assoc. reflexivity.
 Qed.
 
+(* the repaired code: no hypothesis on Input.index_n *)
+Theorem legacy_preimage_ok t i ht x :
+  wf_stx t -> nth_error (st_ins t) i = Some x -> si_kind x <> K_p2sh_p2wsh ->
+  legacy_all_like ht = true -> 0 <= ht < 2 ^ 32 ->
+  lib_legacy_preimage H160 t (Z.of_nat i) ht = spec_legacy_preimage H160 t i ht.
+Proof. intros Hw. apply (legacy_preimage_at_ok true t i ht x Hw). discriminate. Qed.
+
+(* the code before fixes/C01-2: correct exactly under index_n = position *)
+Theorem legacy_preimage_unrepaired_ok t i ht x :
+  wf_stx t -> index_ok t -> nth_error (st_ins t) i = Some x -> si_kind x <> K_p2sh_p2wsh ->
+  legacy_all_like ht = true -> 0 <= ht < 2 ^ 32 ->
+  lib_legacy_preimage_at H160 false t (Z.of_nat i) ht = spec_legacy_preimage H160 t i ht.
+Proof. intros Hw Hi. apply (legacy_preimage_at_ok false t i ht x Hw). intros _. exact Hi. Qed.
+
 (* ---------- digests: what sign() and verify() hash ---------- *)
 
 Definition hash_type_supported (x : sin) (ht : Z) : Prop :=
   0 <= ht < 2 ^ 32 /\ (k_segwit (si_kind x) = false -> legacy_all_like ht = true).
 
-Theorem digest_ok t i ht x :
-  wf_stx t -> index_ok t -> nth_error (st_ins t) i = Some x ->
+Theorem digest_at_ok bypos t i ht x :
+  wf_stx t -> (bypos = false -> index_ok t) -> nth_error (st_ins t) i = Some x ->
   (k_segwit (si_kind x) = true -> st_segwit t = true) ->
   hash_type_supported x ht ->
-  lib_digest H H160 t i ht = spec_digest H H160 t i ht /\ spec_digest H H160 t i ht <> None.
+  lib_digest_at H H160 bypos t i ht = spec_digest H H160 t i ht /\ spec_digest H H160 t i ht <> None.
 Proof.
   intros Hw Hidx Hx Hsw (Hht & Hleg).
-  unfold lib_digest, spec_digest, spec_preimage, lib_signature_hash, lib_signature. rewrite Hx.
+  unfold lib_digest_at, spec_digest, spec_preimage, lib_signature_hash_at, lib_signature_at. rewrite Hx.
   destruct (k_segwit (si_kind x)) eqn:EK.
   - assert (Hwt : k_wtype (si_kind x) <> WT_legacy).
     { unfold k_segwit in EK. destruct (k_wtype (si_kind x)); congruence. }
     assert (Hsig : (match k_wtype (si_kind x) with
-                    | WT_legacy => lib_legacy_preimage H160 t (Z.of_nat i) ht
+                    | WT_legacy => lib_legacy_preimage_at H160 bypos t (Z.of_nat i) ht
                     | _ => if Z.of_nat i <? 0 then None else lib_bip143_preimage H H160 t (Z.to_nat (Z.of_nat i)) ht
                     end) = spec_bip143_preimage H H160 t i ht).
     { destruct (Z.of_nat i <? 0) eqn:E; [apply Z.ltb_lt in E; lia|]. rewrite Nat2Z.id.
@@ -226,19 +241,51 @@ Proof.
   - assert (Hwt : k_wtype (si_kind x) = WT_legacy).
     { unfold k_segwit in EK. destruct (k_wtype (si_kind x)); congruence. }
     rewrite Hwt.
-    rewrite (legacy_preimage_ok t i ht x Hw Hidx Hx) by
+    rewrite (legacy_preimage_at_ok bypos t i ht x Hw Hidx Hx) by
       (try exact Hht; try (apply Hleg; reflexivity); intros E; rewrite E in EK; discriminate EK).
     destruct (all_like_flags ht (Hleg eq_refl)) as (_ & Hs & _).
     unfold spec_legacy_preimage. rewrite Hx, Hs. cbn [andb]. split; [reflexivity|discriminate].
 Qed.
 
-(* verify() asks for sign_id = index_n: the same digest when index_n is the position *)
-Theorem verify_digest_is_sign_digest t i ht :
-  index_ok t -> lib_verify_digest H H160 t i ht = lib_digest H H160 t i ht.
+Theorem digest_ok t i ht x :
+  wf_stx t -> nth_error (st_ins t) i = Some x ->
+  (k_segwit (si_kind x) = true -> st_segwit t = true) ->
+  hash_type_supported x ht ->
+  lib_digest H H160 t i ht = spec_digest H H160 t i ht /\ spec_digest H H160 t i ht <> None.
+Proof. intros Hw. apply (digest_at_ok true t i ht x Hw). discriminate. Qed.
+
+(* verify() hashes what sign() hashed: always for the repaired code, under index_n = position before *)
+Theorem verify_digest_is_sign_digest bypos t i ht :
+  (bypos = false -> index_ok t) -> lib_verify_digest_at H H160 bypos t i ht = lib_digest_at H H160 bypos t i ht.
 Proof.
-  intros Hidx. unfold lib_verify_digest, lib_digest.
+  intros Hidx. unfold lib_verify_digest_at, lib_digest_at.
   destruct (nth_error (st_ins t) i) as [x|] eqn:Hx; [|reflexivity].
-  rewrite (Hidx i x Hx). reflexivity.
+  destruct bypos; [reflexivity|]. rewrite (Hidx eq_refl i x Hx). reflexivity.
 Qed.
 
 End WithHashes.
+
+(* ---------- the example transaction of Properties/C01.v is in the domain ---------- *)
+
+Ltac conj := repeat match goal with |- _ /\ _ => split end.
+Ltac num :=
+  match goal with
+  | |- _ <= _ => vm_compute; discriminate
+  | |- _ < _ => vm_compute; reflexivity
+  | |- (_ <= _)%nat => vm_compute; repeat constructor
+  | |- _ = _ => vm_compute; reflexivity
+  | |- _ <> _ => vm_compute; discriminate
+  end.
+
+Lemma ex_tx_wf_proof : wf_stx ex_tx /\ index_ok ex_tx.
+Proof.
+  split.
+  - unfold wf_stx, ex_tx. cbn [st_version st_locktime st_ins st_outs]. conj; try num.
+    + repeat apply Forall_cons; try apply Forall_nil; unfold wf_sin; conj; try num.
+      all: repeat apply Forall_cons; try apply Forall_nil; left; reflexivity.
+    + repeat apply Forall_cons; try apply Forall_nil; unfold wf_sout; conj; num.
+  - intros j x. destruct j as [|[|j]]; cbn [ex_tx st_ins nth_error].
+    + intros E. inversion E. reflexivity.
+    + intros E. inversion E. reflexivity.
+    + destruct j; discriminate.
+Qed.
